@@ -64,6 +64,7 @@ def plan(pid, tier, seed):
     elif pid in ("C06",):
         S += scen.directed(pid, tier)
         S += [scen.paging_history(base + i, nblocks=n(tier, 12, 20)) for i in range(n(tier, 10, 50))]
+        S += [scen.big_address_history(seed, per_block=1100, nblocks=n(tier, 3, 5))]
         M += models.for_property(pid, tier)
     elif pid in ("C07", "C08"):
         S += scen.directed(pid, tier)
